@@ -285,8 +285,12 @@ func TestStatsEqualRecount(t *testing.T) {
 				return &rtcp.PictureLossIndication{SenderSSRC: 5, MediaSSRC: target}
 			default:
 				media := target
-				if rapid.Bool().Draw(t, "firMediaZero") {
+				switch rapid.IntRange(0, 3).Draw(t, "firMedia") {
+				case 0, 1:
 					media = 0 // RFC 5104: the media source field of a FIR is zero, the target is in the FCI entry
+				case 2:
+					// ... and receivers ignore it: a sender that fills it with another stream's SSRC still asks only the streams of the entries
+					media = uint32(rapid.SampledFrom([]int{100, 101, 200, 201, 900}).Draw(t, "firMediaOther")) //nolint:gosec
 				}
 
 				// one FIR can ask several streams for a key frame: 1..3 entries, the target anywhere among them
